@@ -1,1 +1,349 @@
-fn main() {}
+//! C20 — recursion and aggregation accept exactly the valid inner proofs.
+//!
+//! (a) verifier gadget, witness level: for valid inner proofs of three inner circuits and every
+//!     single-element corruption, the accumulator the synthesised verifier circuit exposes equals
+//!     `AssignedAccumulator::as_public_input(Accumulator::from_dual_msm(prepare(..)))`, uncollapsed
+//!     (term by term) and collapsed; the off-circuit accumulator passes `check` only for the valid proof.
+//! (b) verifier gadget, constraint level (thorough): MockProver verification of the valid proof,
+//!     every instance position edited, foreign accumulators, propagated 1-cell faults.
+//! (c) the aggregator's inner-product argument, element by element (needs the `ipa-hook` feature).
+//! (d) `LightAggregator::{init, aggregate_proofs, verify}`: valid aggregation, invalid inner proofs
+//!     at each position, every element of the aggregated proof mutated, inner public inputs edited.
+
+mod agg;
+mod gadget;
+mod inner;
+#[cfg(feature = "ipa-hook")]
+mod ipa;
+mod lightfs;
+mod mutate;
+mod tracer;
+mod vg;
+
+use std::{
+    collections::HashMap,
+    sync::Mutex,
+    time::Instant,
+};
+
+use ff::Field;
+use group::{prime::PrimeCurveAffine, Curve};
+use midnight_curves::G2Affine;
+use serde_json::json;
+use vcore::{CaseOut, Ctx, Level, Viol};
+
+use gadget::F;
+
+/// CPU time of the calling thread in ms (wall time is meaningless on a loaded machine).
+pub fn cpu_ms() -> u64 {
+    let mut ts = libc::timespec { tv_sec: 0, tv_nsec: 0 };
+    unsafe { libc::clock_gettime(libc::CLOCK_THREAD_CPUTIME_ID, &mut ts) };
+    ts.tv_sec as u64 * 1000 + ts.tv_nsec as u64 / 1_000_000
+}
+
+pub fn process_cpu_s() -> f64 {
+    let mut ts = libc::timespec { tv_sec: 0, tv_nsec: 0 };
+    unsafe { libc::clock_gettime(libc::CLOCK_PROCESS_CPUTIME_ID, &mut ts) };
+    ts.tv_sec as f64 + ts.tv_nsec as f64 / 1e9
+}
+
+fn main() {
+    let mut cx = Ctx::from_args("C20", Level::FaultEnumeration);
+    cx.worker_rayon_threads = Some(1);
+    cx.set_rule(
+        "(a) inner circuits {Poseidon chip from scratch (no lookup), std-lib relation with a range-check lookup + Poseidon, \
+         C01-family member with lookups/trash/committed instance column; thorough: + the scratch circuit at k=10} x {valid proof} u \
+         {every group element of the proof -> P+G (thorough: -P, identity, 2P), every scalar -> s+1 (thorough: random, 0), invalid point / \
+         non-canonical scalar encodings (first/middle/last element; all in thorough), truncations, every public input +1, committed \
+         instance +G}: synthesis of the verifier circuit (foreign-curve back-end, MockProver::run without verify) with the accumulator \
+         exposed uncollapsed for every corruption and collapsed for a stride of 12 (quick) / every corruption (thorough) vs the off-circuit \
+         accumulator; (b, thorough) MockProver::verify of the collapsed circuit: valid instance, each instance position +-1, accumulator of \
+         another proof, all-zero instance, corrupted proofs with their own accumulator, propagated +1 faults on a stride of advice cells; \
+         (c, feature ipa-hook) IPA n in {1,2,4,8(,16)}: every witness scalar, base, claimed result, proof element mutated, malformed lengths; \
+         (d) LightAggregator NB_PROOFS in {1,2} (thorough: 3 and a second inner architecture): aggregation of valid proofs, invalid inner \
+         proof at each position (9 kinds), every element of the aggregated proof mutated (counts, bases, scalars, sigma, C, PLONK part, IPA \
+         part, truncations, neighbour swaps), every inner public input edited. A case is non-trivial when it differs from the unmutated input.",
+    );
+    cx.assume("the SRS secret is known to the harness (unsafe_setup from a seeded RNG) and is used only in Accumulator::check");
+    cx.assume("accepting a mutated proof needs a Fiat-Shamir collision; any observed acceptance is reported");
+    cx.assume("(b) instance edits are decided by the copy constraints alone when no gate of the verifier circuit queries an instance column (checked at run time), so they are checked with verify_at_rows(no rows), which verifies every copy constraint");
+    let seed = cx.seed;
+    let thorough = cx.tier.is_thorough();
+    let mut part_wall = serde_json::Map::new();
+
+    let tau = F::random(vcore::rng_for(seed, "srs"));
+    let tau_g2: G2Affine = (G2Affine::generator() * tau).to_affine();
+
+    // ------------------------------------------------------------------------------------ (a)
+    let t_a = Instant::now();
+    let c_a = process_cpu_s();
+    let mut subjects = vec![];
+    let mut builders: Vec<(&str, Box<dyn Fn() -> Result<inner::Subject, String>>)> = vec![
+        ("scratch", Box::new(move || inner::subject_scratch(seed, 0, None))),
+        ("stdlib", Box::new(move || inner::subject_stdlib(seed))),
+        ("fam", Box::new(move || inner::subject_fam(seed))),
+    ];
+    if thorough {
+        builders.push(("scratch-k10", Box::new(move || inner::subject_scratch(seed, 2, Some(10)))));
+    }
+    for (n, b) in &builders {
+        match vcore::catch(|| b()) {
+            Ok(Ok(s)) => subjects.push(s),
+            Ok(Err(e)) => cx.machinery_error(format!("cannot build inner subject {n}: {e}")),
+            Err(p) => cx.machinery_error(format!("panic building inner subject {n}: {p}")),
+        }
+    }
+    // a second valid proof of the scratch circuit (same vk, other witness): the "different proof" of (b)
+    let other = inner::subject_scratch(seed, 1, None).ok();
+    let env = vg::Env {
+        tau_g2,
+        fixed: subjects.iter().map(|s| gadget::fixed_bases(&s.vk)).collect(),
+        vparams: subjects.iter().map(|s| vfam::api::setup(s.k, seed).verifier_params()).collect(),
+        ks: Mutex::new(HashMap::new()),
+    };
+    cx.require(subjects.iter().any(|s| s.lookups == 0) && subjects.iter().any(|s| s.lookups > 0), "inner circuits with and without lookups are needed");
+    cx.extra(
+        "inner_subjects",
+        json!(subjects.iter().map(|s| json!({"name": s.name, "k": s.k, "proof_bytes": s.proof.len(), "elements": s.elements.len(), "lookups": s.lookups, "trashcans": s.trashcans, "committed_columns": s.committed.len(), "public_inputs": s.plain.iter().map(|c| c.len()).sum::<usize>()})).collect::<Vec<_>>()),
+    );
+    // K of the verifier circuit per (subject, collapse) — this also is the synthesis of the valid proofs
+    // (quick: the collapsed circuit is used for the first subject only)
+    let kcases: Vec<(String, (usize, bool))> = (0..subjects.len())
+        .flat_map(|si| [false, true].map(|c| (format!("{}/{}", subjects[si].name, if c { "collapsed" } else { "msm" }), (si, c))))
+        .filter(|(_, (si, c))| thorough || !*c || *si == 0)
+        .collect();
+    cx.run_cases("a-circuit-size", &kcases, |(si, collapse)| {
+        let mut out = CaseOut::batch();
+        match vg::find_k(&subjects[*si], *collapse) {
+            Ok(k) => {
+                env.ks.lock().unwrap().insert((*si, *collapse), k);
+                out.eval(&format!("K={k}"), false);
+            }
+            Err(e) => out.viol(Viol::new(if e.starts_with("HARNESS") { "harness:tracer-disagrees-with-mockprover" } else { "verifier-gadget:valid-proof-synthesis-fails" }, e, json!({"subject": subjects[*si].name, "collapse": collapse}))),
+        }
+        out
+    });
+    let ks = env.ks.lock().unwrap().clone();
+    cx.extra("verifier_circuit_K", json!(ks.iter().map(|((si, c), k)| json!({"subject": subjects[*si].name, "collapsed": c, "K": k})).collect::<Vec<_>>()));
+    // corruptions
+    let all: Vec<Vec<vg::Corruption>> = subjects.iter().map(|s| vg::corruptions(s, thorough, seed)).collect();
+    let light: Vec<Vec<vg::Corruption>> = if thorough { subjects.iter().map(|s| vg::corruptions(s, false, seed)).collect() } else { all.clone() };
+    let mut acases: Vec<(String, (usize, usize, bool, bool))> = vec![]; // (subject, corruption index, collapse, from light list)
+    for si in 0..subjects.len() {
+        if !ks.contains_key(&(si, false)) {
+            continue;
+        }
+        for ci in 0..all[si].len() {
+            acases.push((format!("{}/msm/{}", subjects[si].name, all[si][ci].name), (si, ci, false, false)));
+        }
+    }
+    for si in 0..subjects.len() {
+        if !ks.contains_key(&(si, true)) {
+            continue;
+        }
+        if thorough {
+            for ci in 0..light[si].len() {
+                acases.push((format!("{}/collapsed/{}", subjects[si].name, light[si][ci].name), (si, ci, true, true)));
+            }
+        } else if si == 0 {
+            // quick: 12 corruptions on a stride (the valid proof first)
+            let n = light[si].len();
+            let mut picks: Vec<usize> = (0..12).map(|j| j * n / 12).collect();
+            picks.dedup();
+            for ci in picks {
+                acases.push((format!("{}/collapsed/{}", subjects[si].name, light[si][ci].name), (si, ci, true, true)));
+            }
+        }
+    }
+    cx.run_cases("a-witness-level", &acases, |(si, ci, collapse, from_light)| {
+        let c = if *from_light { &light[*si][*ci] } else { &all[*si][*ci] };
+        vg::eval_a(&env, *si, &subjects[*si], c, *collapse, ks[&(*si, *collapse)])
+    });
+    {
+        let eq_msm = cx.class_count("a-witness-level:msm:both-ok:equal");
+        let eq_col = cx.class_count("a-witness-level:collapsed:both-ok:equal");
+        cx.require(eq_msm as usize >= subjects.iter().map(|s| s.elements.len()).sum::<usize>(), "every proof element must have been corrupted once with both sides succeeding");
+        cx.require(eq_col >= 8, "collapsed comparisons missing");
+        for c in ["a:class:group+G", "a:class:scalar+1", "a:class:instance+1", "a:class:invalid-point-encoding", "a:class:noncanonical-scalar", "a:class:truncated", "a:class:committed+G", "a:class:none"] {
+            let n = cx.counter_value(c);
+            cx.require(n > 0, &format!("corruption class {c} was never exercised"));
+        }
+        let valid_ok = cx.class_count("a-witness-level:msm:valid:acc.check=true");
+        cx.require(valid_ok as usize == subjects.len(), "the off-circuit accumulator of every valid proof must pass Accumulator::check");
+        cx.require(cx.class_count("a-witness-level:msm:corrupted:acc.check=false") > 50, "corrupted accumulators that fail the check are needed");
+    }
+    part_wall.insert("a".into(), json!({"wall_s": vcore::round3(t_a.elapsed().as_secs_f64()), "cpu_s": vcore::round3(process_cpu_s() - c_a)}));
+
+    // ------------------------------------------------------------------------------------ (c)
+    let t_c = Instant::now();
+    let c_c = process_cpu_s();
+    #[cfg(feature = "ipa-hook")]
+    {
+        let sizes: Vec<usize> = if thorough { vec![1, 2, 4, 8, 16, 32] } else { vec![1, 2, 4, 8] };
+        let mut sts = vec![];
+        for n in &sizes {
+            sts.push((ipa::statement(*n, false, seed), false));
+            if *n >= 4 {
+                sts.push((ipa::statement(*n, true, seed), true));
+            }
+        }
+        let mut proofs = vec![];
+        for (st, _) in &sts {
+            match ipa::prove(st) {
+                Ok(Ok(p)) => proofs.push(p),
+                other => {
+                    cx.report_violation("c-ipa", &st.name, Viol::new(format!("ipa:rejects-honest:n={}", st.scalars.len()), format!("ipa_prove failed on an honest statement: {other:?}"), json!({})));
+                    proofs.push(vec![]);
+                }
+            }
+        }
+        let mut ccases = vec![];
+        for (i, (st, padded)) in sts.iter().enumerate() {
+            if proofs[i].is_empty() {
+                continue;
+            }
+            cx.require(proofs[i].len() == 96 * st.scalars.len().trailing_zeros() as usize + 32, "IPA proof has the documented layout (log n pairs + one scalar)");
+            for (name, mu) in ipa::mutations(st, &proofs[i], *padded, seed) {
+                ccases.push((format!("{}/{name}", st.name), (i, mu)));
+            }
+        }
+        cx.run_cases("c-ipa", &ccases, |(i, mu)| ipa::eval(&sts[*i].0, &proofs[*i], mu));
+        let mut mal = vec![];
+        for a in 0..=5usize {
+            for b in 0..=5usize {
+                for c in 0..=5usize {
+                    if !(a == b && b == c && a.is_power_of_two()) && (thorough || (a + b + c) % 2 == 1 || (a == b && b == c)) {
+                        mal.push((format!("{a}-{b}-{c}"), (a, b, c)));
+                    }
+                }
+            }
+        }
+        cx.run_cases("c-ipa-malformed", &mal, |ns| ipa::eval_malformed(*ns, seed));
+        cx.require(cx.class_count("c-ipa:honest:accept") as usize == sts.len(), "every honest IPA proof must be accepted");
+        cx.require(cx.class_count("c-ipa:mutated:reject") > 100, "IPA mutations missing");
+    }
+    #[cfg(not(feature = "ipa-hook"))]
+    {
+        cx.note("part (c) (ipa_prove / ipa_verify element by element) NOT RUN: the functions live in a private module of midnight-aggregator; build with the cargo feature `ipa-hook` once `midnight_aggregator::verif_exports` exists (see src/ipa.rs). The IPA section of the aggregated proof is still mutated element by element in part (d).");
+        cx.extra("part_c", json!("not built (needs hook)"));
+    }
+    part_wall.insert("c".into(), json!({"wall_s": vcore::round3(t_c.elapsed().as_secs_f64()), "cpu_s": vcore::round3(process_cpu_s() - c_c)}));
+
+    // ------------------------------------------------------------------------------------ (d)
+    let t_d = Instant::now();
+    let c_d = process_cpu_s();
+    let srs_k = 15;
+    let srs_big = (*vfam::api::setup(srs_k, seed)).clone();
+    let mut aggs: Vec<agg::AggSubject> = vec![];
+    let mut setups: Vec<(&str, Box<dyn Fn() -> Result<agg::AggSubject, String> + Send + Sync + '_>)> = vec![
+        ("range+poseidon-nb1", Box::new(|| agg::setup::<1>(0, &srs_big, seed))),
+        ("range+poseidon-nb2", Box::new(|| agg::setup::<2>(0, &srs_big, seed))),
+    ];
+    if thorough {
+        setups.push(("range+poseidon-nb3", Box::new(|| agg::setup::<3>(0, &srs_big, seed))));
+        setups.push(("wide-nb2", Box::new(|| agg::setup::<2>(1, &srs_big, seed))));
+    }
+    // the set-ups (key generation of the aggregator circuit, one aggregation) run side by side;
+    // stderr is muted meanwhile (`LightAggregator::init` `dbg!`s its cost model)
+    let results: Vec<Result<Result<agg::AggSubject, String>, String>> = agg::quiet(|| {
+        std::thread::scope(|sc| {
+            let hs: Vec<_> = setups.iter().map(|(_, f)| sc.spawn(move || vcore::catch(|| f()))).collect();
+            hs.into_iter().map(|h| h.join().unwrap_or_else(|_| Err("set-up thread died".into()))).collect()
+        })
+    });
+    for ((name, _), r) in setups.iter().zip(results) {
+        match r {
+            Ok(Ok(a)) => aggs.push(a),
+            Ok(Err(e)) => cx.machinery_error(format!("aggregator setup {name}: {e}")),
+            Err(p) => cx.machinery_error(format!("aggregator setup {name} panicked: {p}")),
+        }
+    }
+    drop(setups);
+    for a in &aggs {
+        let nb = a.agg.n();
+        let mut o = CaseOut::batch();
+        match (&a.aggregate_outcome, &a.valid_verify) {
+            (Ok(()), Some((Ok(()), true))) => o.eval("valid:aggregate-ok:verify-ok", false),
+            (Ok(()), Some((r, empty))) => {
+                o.eval("valid:aggregate-ok:verify-REJECTS", false);
+                o.viol(Viol::new(format!("aggregator:rejects-valid:nb={nb}"), format!("the aggregation of {nb} valid inner proof(s) ({}) does not verify: {r:?}, transcript empty afterwards: {empty}", a.name), json!({"aggregator": a.name})));
+            }
+            (Err(e), _) => {
+                o.eval("valid:aggregate-FAILS", false);
+                let key = if let Some(p) = e.strip_prefix("panic: ") { format!("aggregator:panic:{}:valid-inputs:nb={nb}", vcore::panic_site(p)) } else { format!("aggregator:rejects-valid:nb={nb}") };
+                o.viol(Viol::new(key, format!("LightAggregator::<{nb}>::aggregate_proofs on {nb} valid inner proof(s) of {} fails: {e}", a.inner.name), json!({"aggregator": a.name, "nb_proofs": nb})));
+            }
+            (Ok(()), None) => unreachable!(),
+        }
+        cx.record("d-aggregate-valid", &a.name, o);
+    }
+    cx.extra(
+        "aggregators",
+        json!(aggs.iter().map(|a| json!({"name": a.name, "init_s": vcore::round3(a.init_s), "aggregate_s": vcore::round3(a.aggregate_s), "verify_ms": vcore::round3(a.verify_ms),
+            "aggregator_circuit_k": a.agg_k, "aggregated_proof_bytes": a.meta.as_ref().map(|m| m.len()), "elements": a.sections.len(), "inner_proof_bytes": a.inner.proofs[0].len()})).collect::<Vec<_>>()),
+    );
+    // invalid inner proofs
+    let mut bad = vec![];
+    for (ai, a) in aggs.iter().enumerate() {
+        if a.aggregate_outcome.is_err() {
+            continue; // aggregation of valid proofs already fails: nothing to learn from invalid ones
+        }
+        for (name, c) in agg::inner_bad_cases(a) {
+            bad.push((format!("{}/{name}", a.name), (ai, c)));
+        }
+    }
+    cx.run_cases("d-invalid-inner-proof", &bad, |(ai, c)| agg::eval_inner_bad(&aggs[*ai], c));
+    // mutations of the aggregated proof
+    let mut dcases = vec![];
+    for (ai, a) in aggs.iter().enumerate() {
+        if !matches!(a.valid_verify, Some((Ok(()), _))) {
+            continue;
+        }
+        for (name, mu) in agg::d_mutations(a, thorough, seed) {
+            dcases.push((format!("{}/{name}", a.name), (ai, mu)));
+        }
+    }
+    cx.run_cases("d-aggregated-proof", &dcases, |(ai, mu)| agg::eval_d(&aggs[*ai], mu));
+    {
+        cx.require(cx.class_count("d-aggregate-valid:valid:aggregate-ok:verify-ok") >= 1, "no valid aggregation succeeded");
+        cx.require(cx.class_count("d-aggregated-proof:original:accept") >= 1, "the unmutated aggregated proof must verify");
+        for sec in ["lhs-count", "lhs-bases", "lhs-scalars", "rhs-count", "rhs-bases", "sigma", "C", "plonk", "ipa-LR", "ipa-s", "inner-instances"] {
+            let n = cx.counter_value(&format!("d:section:{sec}"));
+            cx.require(n > 0, &format!("section {sec} of the aggregated proof was never mutated"));
+        }
+        cx.require(cx.counter_value("d:inner-bad:opening-proof+G") > 0 && cx.counter_value("d:inner-bad:wrong-public-input") > 0, "invalid inner proofs missing");
+    }
+    part_wall.insert("d".into(), json!({"wall_s": vcore::round3(t_d.elapsed().as_secs_f64()), "cpu_s": vcore::round3(process_cpu_s() - c_d)}));
+
+    // ------------------------------------------------------------------------------------ (b)
+    let t_b = Instant::now();
+    let c_b = process_cpu_s();
+    if thorough && !subjects.is_empty() && ks.contains_key(&(0, true)) {
+        if let Some(other) = &other {
+            cx.worker_rayon_threads = Some(8);
+            let s = &subjects[0];
+            let benv = vg::BEnv { env: &env, si: 0, s, other, k: ks[&(0, true)], legit: vg::legit_set(&env, 0, s), n_cells: Mutex::new(0) };
+            cx.require(other.vk.transcript_repr() == s.vk.transcript_repr(), "the 'other proof' must be for the same verifying key");
+            let mut b1 = vec![("valid+instance-edits".to_string(), vg::BCase::ValidAndInstanceEdits)];
+            for c in light[0].iter().filter(|c| ["el0G/group+G", "inst-c0-r0+1"].contains(&c.name.as_str()) || c.name.ends_with("S/scalar+1")).take(3) {
+                b1.push((format!("corrupted/{}", c.name), vg::BCase::CorruptedOwnAcc(c.clone())));
+            }
+            cx.run_cases_with("b-constraint-level", &b1, 2, |c| vg::eval_b(&benv, c));
+            let n_cells = *benv.n_cells.lock().unwrap();
+            cx.extra("verifier_circuit_advice_assignments", json!(n_cells));
+            if n_cells > 0 {
+                let nf = 8u64;
+                let faults: Vec<(String, vg::BCase)> = (0..nf).map(|j| j * n_cells / nf + n_cells / (2 * nf)).map(|i| (format!("fault-cell{i}+1"), vg::BCase::Fault(i))).collect();
+                cx.run_cases_with("b-faults", &faults, 2, |c| vg::eval_b(&benv, c));
+            }
+            cx.require(cx.class_count("b-constraint-level:valid:sat") == 1, "the valid proof must satisfy the verifier circuit");
+            cx.require(cx.class_count("b-constraint-level:instance-edit:unsat") > 20, "instance edits missing");
+            cx.worker_rayon_threads = Some(1);
+        }
+    } else if !thorough {
+        cx.note("part (b) (MockProver::verify of the verifier circuit) runs in the thorough tier only");
+    }
+    part_wall.insert("b".into(), json!({"wall_s": vcore::round3(t_b.elapsed().as_secs_f64()), "cpu_s": vcore::round3(process_cpu_s() - c_b)}));
+    cx.extra("part_cost", serde_json::Value::Object(part_wall));
+    cx.finish()
+}
